@@ -94,6 +94,20 @@ def splitLast (p : List Char) : Option (List Char × List Char) :=
 def isDotPath (d : List Char) : Bool :=
   !rooted d && !(comps d).isEmpty && (comps d).all (fun c => c == dot)
 
+/-- The proper leading parts of an absolute path as `Path::components` yields them (`.` and empty components
+dropped, `..` kept), longest first, each with the components that follow it; the last entry is the root alone. -/
+def properPrefixes (cs : List (List Char)) : List (List (List Char) × List (List Char)) :=
+  (List.range cs.length).reverse.map (fun k => (cs.take k, cs.drop k))
+
+/-- The directory part does not exist (repaired in /repo: like Python's `os.path.realpath`, the longest leading part
+that exists is resolved and the rest is kept as spelled, so that a directory yet to be created below a symlinked one
+gets one name through the link and through the real path).  `a` is absolute. -/
+def resolveLongest (canon : List Char → Option (List Char)) (a : List Char) : List Char :=
+  let cs := (comps a).filter (fun c => c != dot)
+  match (properPrefixes cs).findSome? (fun pr => (canon ('/' :: joinSlash pr.1)).map (fun P => (P, pr.2))) with
+  | some (P, rest) => normpath (rest.foldl (fun acc c => pushPath acc c) P)
+  | none => normpath a
+
 /-- `state::realdirpath`, with `canon` standing for `Path::canonicalize` on the
 directory part (`none` = not found, fall back to lexical cleaning) and `cwd` for
 `env::current_dir`. -/
@@ -105,7 +119,7 @@ def realdirpath (canon : List Char → Option (List Char)) (cwd t : List Char) :
     else
       let d := match canon dname with
         | some d => d
-        | none => normpath (if rooted dname then dname else pushPath cwd dname)
+        | none => resolveLongest canon (if rooted dname then dname else pushPath cwd dname)
       pushPath d fname
 
 /-- `state::relpath t base` with the process cwd explicit. -/
